@@ -185,13 +185,18 @@ def expr_pool(rng):
     from miasmx.tools.modint import uint32, uint16
     from bounded import gen
     I = lambda v: E.ExprInt(uint32(v))
+    K1234 = I(0x1234)
     out = [S.eax, S.ebx, S.ecx, S.esp, S.zf, S.cf, S.eax, S.ebx]
     out += [E.ExprMem(I(0x1000)), E.ExprMem(E.ExprOp('+', S.init_esp, I(8))), E.ExprMem(E.ExprOp('+', S.eax, I(4))), E.ExprMem(I(0x2000), 8),
             E.ExprOp('+', S.eax, S.ebx), E.ExprOp('+', S.eax, I(1)), E.ExprOp('^', S.ebx, S.ebx), E.ExprCond(S.zf, S.eax, S.ebx),
             E.ExprSlice(S.eax, 8, 16),
             E.ExprCompose([(E.ExprSlice(S.eax, 0, 8), 0, 8), (E.ExprSlice(S.eax, 8, 16), 8, 16), (E.ExprSlice(S.eax, 16, 32), 16, 32)]),
             E.ExprCompose([(E.ExprSlice(S.ebx, 0, 8), 0, 8), (E.ExprSlice(S.ebx, 8, 16), 8, 16), (E.ExprInt(uint16(0)), 16, 32)]),
-            E.ExprOp('+', E.ExprOp('+', S.eax, I(4)), I(8)), E.ExprOp('&', S.eax, I(0xff)), E.ExprOp('>>', E.ExprOp('<<', S.ecx, I(4)), I(4))]
+            E.ExprOp('+', E.ExprOp('+', S.eax, I(4)), I(8)), E.ExprOp('&', S.eax, I(0xff)), E.ExprOp('>>', E.ExprOp('<<', S.ecx, I(4)), I(4)),
+            # a constant wider than the field it sits in (the simplifier masks it: in a copy, never in the caller's node), and the same
+            # constant object shared with another expression
+            E.ExprCompose([(K1234, 0, 8), (E.ExprSlice(S.eax, 8, 32), 8, 32)]), E.ExprOp('+', K1234, I(1)),
+            E.ExprCompose([(E.ExprSlice(S.ebx, 0, 16), 0, 16), (E.ExprInt(uint32(0xFFFFFFFF)), 16, 32)])]
     T = _templates()
     for _ in range(3):
         out.append(gen.build_shared(T[rng.randrange(len(T))]))
@@ -285,7 +290,14 @@ class World(object):
                     args.append((ins, 'instr'))
                     if k == 'strI': return str(ins), args
                     if k == 'strA': return ins.__str__('att_syntax binutils'), args
-                    r = lift(ins)
+                    if b % 2:
+                        # the documented two-argument form (operand list left to its default)
+                        from miasmx.tools import emul_helper
+                        from miasmx.tools.modint import uint32
+                        from miasmx.expression.expression import ExprInt
+                        r = emul_helper.get_instr_expr(ins, ExprInt(uint32((ins.offset + ins.l) & 0xffffffff)))
+                    else:
+                        r = lift(ins)
                     if collect:
                         self.F.append(r)
                         for x in r[:2]: self.E.append(x.src)
